@@ -1,7 +1,8 @@
 import NetqasmVerif.Driver.Codec
+import NetqasmVerif.Driver.Sdk
 open Lean NQ.Drv
 
-def handlers : List (String → Json → Option Json) := [handleCodec]
+def handlers : List (String → Json → Option Json) := [handleCodec, handleSdk]
 
 def dispatch (j : Json) : Json :=
   match (jField? j "op").bind jStr? with
